@@ -9,7 +9,7 @@ use vstd::utf8::*;
 use vstd::std_specs::iter::IteratorSpec;
 verus! {
 
-pub struct Repository { pub _opaque: () }
+#[verifier::external_body] pub struct Repository { _o: () }
 pub enum GitAiError { Generic(String) }
 /// stand-in for std::process::Output (only stdout is read)
 pub struct Output { pub stdout: Vec<u8> }
